@@ -102,6 +102,14 @@ def build(spec, i, tag, p_read=0.3, outside=False, fault_mode="reissue"):
         if base_filter == "no_child_cr" and not H.is_root:
             flt = ["setitem", "delitem", "pop", "popitem", "update", "setdefault", "insert", "append",
                    "extend", "iadd", "remove", "reverse"]
+        if r.random() < 0.04 and spec["stratum"] != "io_fault":
+            # a multi-item mutator with one item that must be rejected: whatever part of it was applied, the
+            # resource holds at once what a read shows (vf.session._do_rejected)
+            st = gen.gen_rejected(g, ms, H.id, nonjson=info.forbids_nonjson)
+            if st is not None:
+                steps.append(st)
+                ms._detach_same_parent(H.root, H.path + list(st["path"]), None, True)
+            continue
         single_fault = spec["stratum"] == "io_fault" and fault_mode == "single" and r.random() < 0.3
         snap = copy.deepcopy(ms) if single_fault else None
         sub_steps = gen.gen_program(g, ms, 1, p_read=0.0 if single_fault else p_read, depth=2, handles=[H.id],
